@@ -12,6 +12,7 @@ from harness.common import Check, run_main, seed
 from harness import phonon_common as PC
 from harness.c01 import decide_identity, divisor_obligations, has_undef
 from symnum import sym as S, solver as Z, executor as X
+from symnum.npproxy import NumpyProxy, patched
 from symnum.sym import Sym, SymError, symvars, new_context
 
 REPLAY_RTOL = 1e-6
@@ -32,9 +33,10 @@ def run_shape(chk, ns, nq, np_, nv, n_sym_T, tgrid="T0-first"):
         return L, O
 
     def run():
-        L, O = classes(d, ei, ej)
-        return dict(long_gap=L.value_adiabatic - L.value_isothermal, off_gap=O.value_adiabatic - O.value_isothermal,
-                    long_i2a=L.isothermal_to_adiabatic)
+        with patched((ns, {"numpy": NumpyProxy()})):
+            L, O = classes(d, ei, ej)
+            return dict(long_gap=L.value_adiabatic - L.value_isothermal, off_gap=O.value_adiabatic - O.value_isothermal,
+                        long_i2a=L.isothermal_to_adiabatic)
 
     rng = random.Random(seed() * 7919 + nq * 100 + np_ + 17)
     reported = set()
